@@ -24,6 +24,8 @@ OBLIGATIONS = [
     (P + "miss_after_dropped_store", "after a store that could not be performed the key misses (the previous value is gone)"),
     (P + "live_entry_always_found", "no limit, no allocation failure: the concrete answers equal the specification's (a live entry is always found)"),
     (P + "copy_failure_handled", "the generated handler of the value-copy bad_alloc removes the previous entry (D9 fixed in the source)"),
+    (P + "configured_limit_is_effective_limit", "cache_pool (generated settings mapping): a configured cache.limit n is the limit the cache is built with, for thread_shared and process_shared; 0 stays 0"),
+    (P + "configured_zero_is_unlimited", "cache.limit=0 configures a cache with no size limit in play (live_entry_always_found applies)"),
     (P + "page_triggers_attached", "cache_interface: every trigger recorded since reset (add_trigger, triggers of fetched frames, triggers+key of stored frames) is in the set store_page passes to the back-end, with the page key"),
     (P + "recorder_collects", "triggers_recorder: detach() returns everything recorded in its scope, whatever other (nested) recorders do"),
     (P + "rise_invalidates_dependants", "a page stored with t among its recorded triggers (or t = its key) is missed by fetch_page after rise t"),
@@ -180,21 +182,34 @@ def main():
                     f"{len(r['diffs'])} differing lines; first: `{cs}` impl=`{a}` model=`{b}`; minimal differing history: {json.dumps(small)} (shm={shm})")
     # ---- trigger-recording layer: real cppcms::cache_interface over a cppcms::service (harness/c07i.cpp)
     ibin = c.harness("c07i")
+    istreams = []
     if ibin:
-        hists = [H.iface_history(c.rng, c.rng.choice((0, 0, 2, 5)), c.rng.randrange(10, 60)) for _ in range(300 if c.tier == "thorough" else 40)]
+        rng = c.rng
+        thorough = c.tier == "thorough"
+        # thread_shared: configured cache.limit absent / 0 (= no limit) / 1 / 64 / 65 / 1000 (+ small ones), more than 64 live entries
+        tl = ["-", "0", "1", "64", "65", "1000", "2", "5"]
+        hists = [H.iface_history(rng, f"inew thread {rng.choice(tl)}", rng.randrange(10, 60)) for _ in range(300 if thorough else 40)]
+        hists += [H.iface_many_history(rng, f"inew thread {l}", rng.randrange(66, 150 if thorough else 100)) for l in tl[:6]]
         corpus_i = [[l.strip() for l in open(os.path.join(ROOT_, "gen", "corpus", "C07", f)) if l.strip() and not l.startswith("#")]
                     for f in sorted(os.listdir(os.path.join(ROOT_, "gen", "corpus", "C07"))) if f.endswith(".ihist")]
-        hists = corpus_i + hists
+        istreams.append(("iface", corpus_i + hists))
+        # process_shared through cache_pool: cache.memory absent (16 MiB) / 512 KiB, cache.limit absent (= memory in KiB) / 0 / small
+        for mem in ("-", "512"):
+            pl = ["-", "0", "3", "100"]
+            hs = [H.iface_history(rng, f"inew process {rng.choice(pl)} {mem}", rng.randrange(10, 50)) for _ in range(60 if thorough else 8)]
+            hs += [H.iface_many_history(rng, f"inew process {l} {mem}", rng.randrange(66, 100)) for l in ("-", "0", "100")]
+            istreams.append((f"iface-process-mem{mem}", hs))
+    for iname, hists in istreams:
         cases, hist_of = [], []
         for hi, h in enumerate(hists):
             for l in h:
                 cases.append(l); hist_of.append(hi)
-        out_i, out_m, diffs, crashed = c.correspond("iface", cases, ibin, model, canon=H.canon_iface,
+        out_i, out_m, diffs, crashed = c.correspond(iname, cases, ibin, model, canon=H.canon_iface,
                                                     nontrivial=lambda cs, o: cs if (o.startswith(("hit", "cached", "detached")) and "detached -" not in o) else None)
         for cs in cases:
             dist[cs.split()[0]] = dist.get(cs.split()[0], 0) + 1
         judged += len(cases)
-        c.samples += [{"stream": "iface", "case": cases[i], "impl": out_i[i] if i < len(out_i) else None, "model": out_m[i] if i < len(out_m) else None}
+        c.samples += [{"stream": iname, "case": cases[i], "impl": out_i[i] if i < len(out_i) else None, "model": out_m[i] if i < len(out_m) else None}
                       for i in (1, len(cases) // 2) if i < len(cases)]
         def iface_fails(h):
             rc, o, err = c.run_lines(ibin, h)
@@ -213,14 +228,14 @@ def main():
                 small = R.shrink(hists[hi], 0, iface_fails, budget=120) if iface_fails(hists[hi]) else hists[hi]
                 rc, o, err = c.run_lines(ibin, small)
                 c.violation("cache_interface: " + (H.iface_judge(small, o) or [(0, msg)])[0][1],
-                            {"history": small, "impl_outputs": o, "stream": "iface", "note": "replay: .build/harness/c07i < history"})
+                            {"history": small, "impl_outputs": o, "stream": iname, "note": "replay: .build/harness/c07i < history"})
             if diffs and not bad:
                 k, cs, a, b = diffs[0]
                 def idiffers(h):
                     rc, o, err = c.run_lines(ibin, h); rc2, m2, err2 = c.run_lines(model, h)
                     return [H.canon_iface(x) for x in o] != [H.canon_iface(x) for x in m2]
                 small = R.shrink(hists[hist_of[k]], 0, idiffers, budget=120)
-                c.broke("correspondence stream iface", f"{len(diffs)} differing lines; first: `{cs}` impl=`{a}` model=`{b}`; minimal differing history: {json.dumps(small)}")
+                c.broke("correspondence stream " + iname, f"{len(diffs)} differing lines; first: `{cs}` impl=`{a}` model=`{b}`; minimal differing history: {json.dumps(small)}")
     if R.lowmem_lines:
         c.log(f"note: {R.lowmem_lines} lines ran under low shared memory")
     c.extra_cov["op_distribution"] = dist
